@@ -7,7 +7,7 @@
 2. The driver records what STIR's filters and transforms return (exact dyadic instances for the convolution filters,
    fixed-point observations for the DFT routes and the Gaussian/Metz filters); TLC (Trace_Conv, Trace_DFT4) must explain
    every recorded line.  Python only orchestrates and counts."""
-import os, json, concurrent.futures as cf
+import os, json, time, concurrent.futures as cf
 from . import lib
 
 CONV_EVENTS = {"C1", "CS", "CN", "SEP", "DF", "MEAN"}
@@ -59,6 +59,7 @@ def _key(rec):
 
 def run(ctx):
     q = ctx.quick
+    t0 = time.time()
     # 1. model checks of the specifications themselves (two TLC runs side by side)
     with cf.ThreadPoolExecutor(2) as ex:
         f1 = ex.submit(lib.tlc, "MC_Conv", cfg="MC_Conv" if q else "MC_Conv_thorough", workers=3 if q else 6, timeout=1500, heap="6g")
@@ -66,6 +67,7 @@ def run(ctx):
         r1, r2 = f1.result(), f2.result()
     ctx.mc_must_pass(r1, "theorems of Conv.tla (separable, symmetric, boundary, mean, padded periodic = direct)", "MC_Conv")
     ctx.mc_must_pass(r2, "theorems of DFT4.tla (inverse, impulse, Parseval, axes, FFT algorithm, real packing, convolution theorem)", "MC_DFT4")
+    t1w = time.time()
     # 2. record
     jobs = []   # (module, trace)
     if ctx.replay:
@@ -88,6 +90,7 @@ def run(ctx):
         t3 = os.path.join(ctx.work, "filt.ndjson")
         lib.run_driver(exe, ["filt", t3, 45 if q else 400], env=env, timeout=900)
         jobs = [("Trace_Conv", t1, 2 if q else 6), ("Trace_DFT4", t2, 4 if q else 8), ("Trace_Conv", t3, 2 if q else 8)]
+    t2w = time.time()
     # 3. validate (pieces in parallel; the lines are independent observations)
     pieces = []
     for mod, t, parts in jobs:
@@ -99,6 +102,7 @@ def run(ctx):
         for mod, p, f in futs:
             ok, r, at = f.result()
             results.append((mod, p, ok, r, at))
+    ctx.notes.append("wall: model checks %.0f s, recording %.0f s, trace validation %.0f s" % (t1w - t0, t2w - t1w, time.time() - t2w))
     known_ids = {k["id"] for k in ctx.known}
     counts = {}
     for mod, p, ok, r, at in results:
